@@ -105,13 +105,13 @@ def _check_description_flow(ctx, target: str, rule: str) -> None:
                     if it is not None and any(isinstance(x, ast.Name) and x.id == tgt for x in ast.walk(it)) and not any(isinstance(x, ast.Subscript) for x in ast.walk(it)):
                         scope = n if isinstance(n, ast.For) else None
                         body_nodes = ast.walk(scope) if scope is not None else ast.walk(f.node)
-                        if any(isinstance(c, ast.Call) and (dotted_of(c.func) or "").split(".")[-1] == "string_literal" for c in body_nodes):
+                        if any(isinstance(c, ast.Call) and (dotted_of(c.func) or "").split(".")[-1].endswith("string_literal") for c in body_nodes):
                             ok = True
             else:
                 # inline: for line in wrap_text_into_lines(...)
                 for n in ast.walk(f.node):
                     if isinstance(n, (ast.For, ast.comprehension)) and any(x is call for x in ast.walk(n.iter)):
-                        ok = any(isinstance(c, ast.Call) and (dotted_of(c.func) or "").split(".")[-1] == "string_literal" for c in ast.walk(f.node))
+                        ok = any(isinstance(c, ast.Call) and (dotted_of(c.func) or "").split(".")[-1].endswith("string_literal") for c in ast.walk(f.node))
             what = f"{target}: {f.qualname}: description -> wrap_text_into_lines -> string_literal per line"
             if ok:
                 ctx.ok(rule, f, call, what=what)
